@@ -50,15 +50,20 @@ func corpus() []scripted {
 			g.do(sn(nodeV("n0", "x0", "pa")), sc(claimV("c0", "x0", "pa")), d("DeliverClaim", "c0"), d("DeliverNode", "n0"),
 				d("DelClaim", "c0"), d("DelNode", "n0"), d("DeliverNode", "n0"), sn(nodeV("n0", "x0", "pa")), d("DeliverClaim", "c0"))
 		}},
-		// finding: Node deleted before the pod deletion is seen while the NodeClaim remains
+		// fixed by 7fed8b92b: Node deleted before the pod deletion is seen while the NodeClaim remains
 		{"nodeloss", func(g *gen) {
 			g.do(sn(nodeV("n0", "x0", "pa")), sc(claimV("c0", "x0", "pa")), d("DeliverNode", "n0"), d("DeliverClaim", "c0"),
 				sp(podV("p0", "n0")), d("DeliverPod", "p0"), d("DelNode", "n0"), d("DeliverNode", "n0"), d("DelPod", "p0"), d("DeliverPod", "p0"))
 		}},
-		// finding: pod with required anti-affinity re-created under the same name, still pending
+		// fixed by eef19881a: pod with required anti-affinity re-created under the same name, still pending
 		{"untracked", func(g *gen) {
 			g.do(sn(nodeV("n0", "x0", "pa")), d("DeliverNode", "n0"), sp(podV("p0", "n0")), d("DeliverPod", "p0"),
 				sp(podV("p0", "")), d("DeliverPod", "p0"))
+		}},
+		// outside the premises (pods_settled): re-created under the same name on a node the cache does not track
+		{"untracked", func(g *gen) {
+			g.do(sn(nodeV("n0", "x0", "pa")), d("DeliverNode", "n0"), sp(podV("p0", "n0")), d("DeliverPod", "p0"),
+				sp(podV("p0", "ghost")), d("DeliverPod", "p0"))
 		}},
 	}
 }
